@@ -154,6 +154,14 @@ func VerifHarness_C01_create_permission() {
 		first := a.GetPermission(&net.UDPAddr{IP: p1.ip})
 		second := a.GetPermission(&net.UDPAddr{IP: p2.ip})
 		vAssume(first != nil && second != nil && first != second)
+		vAssert(first.VTimer() != second.VTimer(), "C07.each_permission_has_its_own_timer")
+		// refreshing one peer's permission (a later CreatePermission / ChannelBind for it) leaves the other's deadline alone
+		r0 := vTimerResets(second.VTimer())
+		a.AddPermission(allocation.NewPermission(&net.UDPAddr{IP: p1.ip, Port: 1}, &allocation.VLogger{}, s.pt))
+		vAssert(vTimerResets(second.VTimer()) == r0, "C07.refreshing_one_peer_does_not_extend_another")
+		vAssert(vTimerResets(second.VTimer()) == r0, "C02.refreshing_one_peer_does_not_extend_another_peers_admission")
+		first = a.GetPermission(&net.UDPAddr{IP: p1.ip})
+		vAssume(first != nil)
 		vFire(first.VTimer())
 		vAssert(a.GetPermission(&net.UDPAddr{IP: p1.ip}) == nil, "C01.expired_permission_never_authorises")
 		vAssert(a.GetPermission(&net.UDPAddr{IP: p1.ip}) == nil, "C07.expiry_removes_that_peers_permission")
